@@ -18,6 +18,8 @@ def _rules_report(prop, repo, facts_dir):
     fb = Facts(os.path.join(facts_dir, "breadlog-bin.json"))
     fl = Facts(os.path.join(facts_dir, "breadlog-lib.json"))
     g = Grammar.load(os.path.join(repo, "src", "parser", "rust_grammar.pest"))
+    from . import canon
+    canon.canonicalise(g, [fb, fl])
     ctx = Ctx(prop, "quick", fb, fl, g, 0, extra={"repo": repo, "facts_dir": facts_dir})
     mod = importlib.import_module("sa.rules.%s" % prop.lower())
     mod.run(ctx)
